@@ -47,11 +47,11 @@ def gen_cases(tier, seed):
     cases.append({"kind": "fixed", "len": 0, "prefs": None, "writes": [0, 0], "reads": [1, 1], "seed": 3, "data": "text"})
     for n in range(0, 41):
         cases.append({"kind": "small", "len": n, "seed": rng.randrange(1 << 48)})
-    nrand = {"quick": 150, "search": 500, "thorough": 900}[tier]
+    nrand = {"quick": 260, "search": 600, "thorough": 1500}[tier]
     for i in range(nrand):
         cases.append({"kind": rng.choice(["small", "small", "edge64", "edge64", "random", "short"]), "seed": rng.randrange(1 << 48)})
     if tier == "thorough":
-        for i in range(40):
+        for i in range(32):
             cases.append({"kind": "edgebig", "seed": rng.randrange(1 << 48)})
     return cases
 
@@ -70,7 +70,7 @@ def worker_init(ctx):
     libc = ctypes.CDLL(None)
     libc.fopen.restype = P; libc.fopen.argtypes = [c_char_p, c_char_p]
     libc.fclose.restype = c_int; libc.fclose.argtypes = [P]
-    d = os.path.join(BUILD, "run", "c20_files_%d" % os.getpid())
+    d = os.path.join(BUILD, "run", "c20_files")
     os.makedirs(d, exist_ok=True)
     return {"lib": lib, "api": api, "libc": libc, "dir": d, "block": Oracle(name="block"), "lzfile": Oracle(name="lzfile"), "n": 0}
 
@@ -146,6 +146,14 @@ def partition(rng, n, small):
 def read_sizes(rng, n, small):
     style = rng.choice(["one", "bytes", "random", "random", "big", "odd"])
     out, left = [], n
+    if n > 600000:
+        # large contents: few, large reads (the extracted model accumulates the delivered bytes in a list)
+        k = rng.choice([n, n + 7, n // 2 + 1, n // 3 + 1, 262144 + 1, 1048576])
+        while left > 0 and len(out) < 12:
+            out.append(k); left -= min(k, left)
+        if left > 0:
+            out.append(left)
+        return out + [1, 65536]
     if style == "one":
         out = [max(n, 1)]
     elif style == "big":
@@ -168,7 +176,7 @@ def read_sizes(rng, n, small):
 def session(st, case, content, prefs, writes, reads, res, short_cut=None, spec=True):
     api, libc = st["api"], st["libc"]
     st["n"] += 1
-    path = os.path.join(st["dir"], "f%d.lz4" % (st["n"] % 8)).encode()
+    path = os.path.join(st["dir"], "f%d_%d.lz4" % (os.getpid(), st["n"] % 8)).encode()
     fails = res["fails"]
     desc = {"len": len(content), "prefs": prefs, "writes": writes[:50], "reads": reads[:50]}
     # ---------------- write
@@ -291,8 +299,8 @@ def run_case(st, case):
             elif kind == "edge64":
                 n = 65536 * rng.choice([1, 1, 2, 3]) + rng.choice([-1, 0, 1])
             elif kind == "edgebig":
-                bs = rng.choice([262144, 1048576, 4194304])
-                n = bs * rng.choice([1, 1, 2]) + rng.choice([-1, 0, 1])
+                bs = rng.choice([262144, 262144, 1048576, 4194304])
+                n = bs * (rng.choice([1, 1, 2]) if bs < 4194304 else 1) + rng.choice([-1, 0, 1])
             else:
                 n = rng.choice([rng.randrange(41, 2000), rng.randrange(2000, 200000), rng.randrange(0, 400000)])
             dk = data_kind(rng, n)
@@ -302,7 +310,9 @@ def run_case(st, case):
             writes = partition(rng, n, small)
             reads = read_sizes(rng, n, small)
             res["stats"]["len_" + ("0" if n == 0 else "1-40" if n <= 40 else "le64K" if n <= 65536 else "gt64K")] += 1
-            spec = n <= SPEC_LIMIT or dk == "rand"
+            # decoding by the specification: small contents, or incompressible ones (stored blocks) of few blocks
+            nblocks = n // BS[prefs["bsid"] if prefs else 0] + 1
+            spec = n <= SPEC_LIMIT or (dk == "rand" and nblocks <= 6)
             res["stats"]["spec_" + ("checked" if spec else "skipped_large_compressible")] += 1
             res["stats"]["data_" + dk] += 1
             session(st, case, content, prefs, writes, reads, res, spec=spec)
